@@ -5,9 +5,18 @@
   Reading guide. `validate x k s` (`Model/Ids.lean`) is the validation function identifier type
   `k` is parsed with, on the bytes `s` of a Rust `&str`; its result is `ok`, `err` or `panic`.
   `x : Ext` holds the external code (`Ipv6Addr`/`Ipv4Addr` parsers, `char::is_alphanumeric`); all
-  theorems hold for every `x`. Rust strings are well-formed UTF-8: `utf8Valid s`. Totality is by
-  construction (every model function is a total Lean function). `struct` / `gram`
+  theorems hold for every `x`, except the converse direction ("required structure ⇒ accepted",
+  `structure_implies_accept`, `accept_iff_structure`, `server_accept_iff_grammar`,
+  `accepted_server_has_no_nul`), which assumes that `x.isIpv6` accepts no more than `ipv6Ref`, the
+  transcription of `core::net::parser` in `Model/IdsIp.lean` that is compared with the real
+  `Ipv6Addr::from_str` on every run. Rust strings are well-formed UTF-8: `utf8Valid s`. Totality is
+  by construction (every model function is a total Lean function). `struct` / `gram`
   (`Spec/IdGrammar.lean`) are the required structure and the recommended grammar.
+
+  Known findings (full statement as `…Statement`, proved part as `…_partial`, machine-checked
+  counterexample): ports 65536..99999 (`grammar_not_always_accepted`; the exclusion is exact:
+  `big_port_rejected`, `grammar_accept_iff`), over-long results of `UserId/RoomId/EventId::new`
+  (`constructor_new_not_always_accepted`), `with_bytes(b"")` (`with_bytes_empty_panics`).
 -/
 import RumaModel.Lemmas.IdsIff
 namespace Ruma.Props.C10
